@@ -406,7 +406,21 @@ def i_compose_circuits(d):
     return pre, lambda: c1.compose(c2)
 
 
-TABLE = {f.__name__: f for f in [q_expect_list, q_expect_pauli, q_expect_poly, q_expect_state, q_entropy, q_sample, q_get_prob, q_to_qutip, q_density, q_state_arith,
+def i_compose_then_extend(d):
+    # receiver may be empty (accumulator pattern); after composing, the receiver is extended: the argument circuit must not follow
+    c1 = build('circuit', dict(d, prog=d['prog'][:d['i0'] % 3] if d['i0'] % 2 else [], comp='none'))
+    c2 = build('circuit', d)
+
+    def call():
+        c1.compose(c2)
+        c1.take(C.gate_lib(d['gate']))
+        for gd in d['prog'][:2]:
+            c1.take(C.gate_lib(gd))
+        return c1
+    return [c2], call
+
+
+TABLE = {f.__name__: f for f in [i_compose_then_extend, q_expect_list, q_expect_pauli, q_expect_poly, q_expect_state, q_entropy, q_sample, q_get_prob, q_to_qutip, q_density, q_state_arith,
                                  q_to_map, q_state_misc, q_compose, q_inverse, q_to_state, q_pauli_misc, q_list_misc, q_poly_misc, q_diag_pauli, q_diag_state,
                                  q_stabilizer_state, q_paulis, q_sbrg, q_shadow, i_rotate, i_transform, i_measure, i_measure_state, i_postselect, i_gate, i_layer,
                                  i_circuit, i_compose_circuits]}
